@@ -334,11 +334,69 @@ def run_impl(lines, timeout=1800):
     return res, note
 
 
-def run_model(lines, timeout=1800):
+MODEL_LINES = []     # every case line given to the extracted model during this check (the kernel sample is drawn from these)
+
+
+def model_env(extra=None):
     cache = os.path.join(BUILD, "cache")
     os.makedirs(cache, exist_ok=True)
     env = dict(os.environ, VERIF_CACHE_DIR=cache, SPG_LISTS_DIR=os.path.join(REPO, "testdata"))
-    return run_lines(os.path.join(BUILD, "modelrun"), lines, timeout, env=env)
+    env.pop("MODELRUN_COQ", None)
+    if extra:
+        env.update(extra)
+    return env
+
+
+def run_model(lines, timeout=1800):
+    MODEL_LINES.extend(lines)
+    return run_lines(os.path.join(BUILD, "modelrun"), lines, timeout, env=model_env())
+
+
+KERNEL_HEADER = """From Spg.Base Require Import Prelude Utf8 Bytes.
+From Spg.Model Require Import Tables Rand GenM CharSets CharGen Token WordList WordGen Api Diag Cli.
+From Spg.Extract Require Import Extract.
+Close Scope N_scope.
+"""
+
+
+def kernel_sample(ctx, k):
+    """Re-evaluate a sample of this run's model cases INSIDE Coq (vm_compute, checked by the kernel at Qed) and require the
+    values the extracted OCaml program computed: ties the kernel's model to the extracted code on cases that were also compared
+    with the implementation.  Returns a dict for the evidence; a failure is a broken correspondence."""
+    lines = [l for l in MODEL_LINES if len(l) < 60000]
+    if not lines:
+        return {"cases": 0, "goals": 0, "ok": True}
+    rng = random.Random(ctx.seed + 77)
+    pick = lines[:4] + rng.sample(lines, min(k, len(lines)))
+    # builtin-list cli cases would print an 18k-word list as a term: keep only file/character command lines
+    pick = [l for l in pick if not (l.split(" ")[1] == "cli" and "776f726473" in l.split(" ")[3:4] and "2d2d66696c65" not in l)]
+    path = os.path.join(ctx.scratch, "KernelSample.v")
+    body = os.path.join(ctx.scratch, "goals.v")
+    if os.path.exists(body):
+        os.remove(body)
+    run_lines(os.path.join(BUILD, "modelrun"), pick, 600, env=model_env({"MODELRUN_COQ": body}))
+    goals = open(body).read() if os.path.exists(body) else ""
+    ng = goals.count("\nGoal ") + (1 if goals.startswith("Goal ") else 0)
+    if ng == 0:
+        return {"cases": len(pick), "goals": 0, "ok": True}
+    open(path, "w").write(KERNEL_HEADER + goals)
+    args = ["coqc"]
+    for d in ("Base", "Model", "Proofs", "Properties", "Gen", "Extract"):
+        args += ["-Q", os.path.join(COQ, d), "Spg." + d]
+    rc, out = sh(args + [path], cwd=ctx.scratch, timeout=900)
+    res = {"cases": len(pick), "goals": ng, "ok": rc == 0}
+    if rc != 0:
+        m = re.search(r"line (\d+)", out)
+        case = ""
+        if m:
+            ln = int(m.group(1))
+            src = (KERNEL_HEADER + goals).split("\n")
+            for j in range(min(ln, len(src)) - 1, -1, -1):
+                if src[j].startswith("(* case "):
+                    case = src[j]
+                    break
+        res["failure"] = (case + " " + out[-600:]).strip()
+    return res
 
 
 def hx(b):
@@ -527,6 +585,7 @@ def write_evidence(ctx, proof, wall_s, violations):
             "samples": ctx.samples if ctx.samples else [{"note": "no correspondence cases were run"}],
             "traces_validated_against_impl": ctx.traces_validated,
             "correspondence_families": ctx.families,
+            "kernel_sample": getattr(ctx, "kernel_sample", None),
             "correspondence_mismatches": len(ctx.mismatches),
             "input_histogram": ctx.hist,
             "known_findings_seen": [k[0].get("id", "") for k in ctx.known_hits],
@@ -566,6 +625,7 @@ def match_known(prop, violation, known):
 def run_check(prop, mod, tier, seed):
     t0 = time.time()
     build = build_all()
+    del MODEL_LINES[:]
     scratch = tempfile.mkdtemp(prefix="verif-%s-" % prop)
     try:
         ctx = Ctx(prop, tier, seed, build, scratch)
@@ -604,6 +664,11 @@ def run_check(prop, mod, tier, seed):
                 fams = sorted(set(m["family"] for m in ctx.mismatches))
                 broken.append({"what": "correspondence", "detail": "model and implementation disagree in families %s (%d cases)" % (fams, len(ctx.mismatches)),
                                "first": ctx.mismatches[0]})
+        if can_run and not getattr(mod, "NO_KERNEL_SAMPLE", False):
+            ks = kernel_sample(ctx, 30 if tier == "quick" else 200)
+            ctx.kernel_sample = ks
+            if not ks["ok"]:
+                broken.append({"what": "kernel-sample", "detail": "the kernel's evaluation of the model differs from the extracted program: " + ks.get("failure", "")[:600]})
         if build.harness_ok:
             mod.oracle(ctx, deep=bool(broken) or tier == "thorough")
 
